@@ -22,7 +22,9 @@ func propC12(w *World, r *Report) {
 		RunFieldPairs(w, r, c[0], c[1], c[2])
 		RunBitPairs(w, r, c[0], c[1], c[2])
 		RunFieldCover(w, r, c[0])
+		RunEnumPair(w, r, c[0], c[1], c[2])
 	}
+	r.Floor("enumpair", 1)
 	pk := map[string]bool{}
 	for _, c := range c12Codecs {
 		pk[modPath+"/"+c[0]] = true
@@ -40,6 +42,9 @@ func propC12(w *World, r *Report) {
 	RunBBoxCorners(w, r)
 	RunExtremumInit(w, r, losslessFuncs(w, r, "C12"))
 	r.Floor("extremuminit", 3)
+	RunExtremumLocal(w, r, w.LibFuncs())
+	r.Floor("extremumlocal", 6)
+	RunControl(r, "extremumlocal", "ctlExtremumLocalBad", RunExtremumLocal)
 	r.Floor("extremumdomain", 4)
 	RunTimeInverse(w, r)
 	{
